@@ -98,6 +98,12 @@ def scenarios(tier, seed):
         path = busmem.wb_path(dict(wbw=w, pw=p))
         out.append(_sc("sweep-write-abort-%d-%d" % (w, p), w, p, s + 80 + i, plans=_sweep_plans(w, path, 1, offs if not q else offs[:8]),
                        lat=(3, 9), bound=300))
+    # ---- family "eager": FIFO-like native side (port behind a clock-domain crossing / width converter): wdata.ready is high at random
+    # whether or not a write command is outstanding and cmd.ready is stalled most of the time; no aborts (aborted writes on such
+    # a port are outside what the bridge can undo)
+    for i, (w, p) in enumerate([(32, 32), (64, 32), (8, 32)] if q else [(32, 32), (64, 32), (8, 32), (8, 8), (128, 16), (16, 64)]):
+        out.append(_sc("eager-%d-%d" % (w, p), w, p, s + 150 + i, base=BASES[i % 4], eager=True, stall=0.75, p_abort_w=0.0, p_abort_r=0.0,
+                       runs=2 if q else 5, nops=160))
     # ---- B3: stimuli generated by TLC from the design model (8-bit Wishbone, 16-bit port = the model's constants)
     for i, g in enumerate(busmem.WB_GOALS):
         out.append(_sc("tlc-goal-" + g, 8, 16, s + 110 + i, tlc=dict(goal=g, extra=3 if q else 12), stall=0.5, lat=(3, 6), bound=400))
